@@ -3,7 +3,7 @@
 #include <frg/hash_map.hpp>
 namespace frgv {
 struct vhash {
-	unsigned int operator() (const int &k) const;     // stub: arbitrary function H[k]
+	unsigned long operator() (const int &k) const;    // stub: H[k]; wider than the unsigned int the map reduces it to
 };
 using A_hm = frg::hash_map<int, tracked, vhash, valloc>;
 using A_hm_it = A_hm::iterator;
